@@ -27,17 +27,22 @@ package rfc8009
 //@   requires tagof(e) == typeid("crypto.Aes128CtsHmacSha256128") || tagof(e) == typeid("crypto.Aes256CtsHmacSha384192")
 //@ func crypto/rfc8009.VerifyIntegrity(key, ct, usage, e) (ok)
 //@   pure
+//@   requires tagof(e) == typeid("crypto.Aes128CtsHmacSha256128") || tagof(e) == typeid("crypto.Aes256CtsHmacSha384192")
 //@   trusted_frame returned slices are not tracked as fresh; in-place append into spare capacity cannot be excluded
 //@ func crypto/rfc8009.KDF_HMAC_SHA2(protocolKey, label, context, kl, e) (r)
 //@   pure
 //@   trusted_frame returned slices are not tracked as fresh; in-place append into spare capacity cannot be excluded
-//@   requires kl >= 0 && kl / 8 <= hashsize(et_hashfn(tagof(e)))
+//@   requires kl >= 0 && kl / 8 <= hashsize(et_hashfn(tagof(e))) && kl < 4294967296
 //@   ensures len(r) == kl / 8
+//@   ensures bytes(r) == kdf_hmac_sha2(et_hashfn(tagof(e)), bytes(protocolKey), bytes(label), bytes(context), kl)
 //@ func crypto/rfc8009.DeriveKey(protocolKey, label, e) (k)
 //@   pure
 //@   trusted_frame returned slices are not tracked as fresh; in-place append into spare capacity cannot be excluded
 //@   requires len(label) > 0
 //@   requires tagof(e) == typeid("crypto.Aes128CtsHmacSha256128") || tagof(e) == typeid("crypto.Aes256CtsHmacSha384192")
+//@   ensures bytes(k) == et_dk(tagof(e), bytes(protocolKey), bytes(label))
+//@   loop 1 invariant -1 <= rangeindex && rangeindex < len(label) && kl == 0
+//@   loop 1 invariant forall c int :: 0 <= c && c <= rangeindex ==> label[c] == kerblabel[c]
 //@ func crypto/rfc8009.DeriveRandom(protocolKey, usage, e) (r, err)
 //@   pure
 //@   trusted_frame returned slices are not tracked as fresh; in-place append into spare capacity cannot be excluded
@@ -47,6 +52,10 @@ package rfc8009
 //@   trusted_frame returned slices are not tracked as fresh; in-place append into spare capacity cannot be excluded
 //@   requires tagof(e) == typeid("crypto.Aes128CtsHmacSha256128") || tagof(e) == typeid("crypto.Aes256CtsHmacSha384192")
 //@ func crypto/rfc8009.StringToKeyIter(secret, salt, iterations, e) (k, err)
+//@   pure
+//@   trusted_frame returned slices are not tracked as fresh; in-place append into spare capacity cannot be excluded
+//@   requires tagof(e) == typeid("crypto.Aes128CtsHmacSha256128") || tagof(e) == typeid("crypto.Aes256CtsHmacSha384192")
+//@ func crypto/rfc8009.GetIntegityHash(iv, c, key, usage, e) (h, err)
 //@   pure
 //@   trusted_frame returned slices are not tracked as fresh; in-place append into spare capacity cannot be excluded
 //@   requires tagof(e) == typeid("crypto.Aes128CtsHmacSha256128") || tagof(e) == typeid("crypto.Aes256CtsHmacSha384192")
